@@ -9,33 +9,35 @@ package types
 
 // ======================================================================= L1: wire formats (C16)
 
+// Untagged clauses of a contract with a `serves` line are checked under the served properties only; the clauses that
+// other properties lean on for what is on the wire carry those properties in their labels.
 //@ func (Message) Parse(bz) (out, err)
 //@ serves C16
 //@ ensures[len]    (err != nil) <==> (len(bz) < 116)
 //@ ensures[nil]    err != nil ==> out == nil
-//@ ensures[fields] err == nil ==> out.Version == u32be(bz, 0) && out.SourceDomain == u32be(bz, 4) && out.DestinationDomain == u32be(bz, 8) && out.Nonce == u64be(bz, 12)
-//@ ensures[addrs]  err == nil ==> out.Sender == bz[20:52] && out.Recipient == bz[52:84] && out.DestinationCaller == bz[84:116]
-//@ ensures[body]   err == nil ==> out.MessageBody == bz[116:]
+//@ ensures[fields C16 C02 C03 C04 C09] err == nil ==> out.Version == u32be(bz, 0) && out.SourceDomain == u32be(bz, 4) && out.DestinationDomain == u32be(bz, 8) && out.Nonce == u64be(bz, 12)
+//@ ensures[addrs C16 C02 C03 C04 C09]  err == nil ==> out.Sender == bz[20:52] && out.Recipient == bz[52:84] && out.DestinationCaller == bz[84:116]
+//@ ensures[body C16 C02 C03 C04 C09]   err == nil ==> out.MessageBody == bz[116:]
 
 //@ func (Message) Bytes() (out, err)
 //@ serves C16
 //@ ensures[len]    (err == nil) <==> (len($recv.Sender) == 32 && len($recv.Recipient) == 32 && len($recv.DestinationCaller) == 32)
-//@ ensures[layout] err == nil ==> out == encMessage($recv.Version, $recv.SourceDomain, $recv.DestinationDomain, $recv.Nonce, $recv.Sender, $recv.Recipient, $recv.DestinationCaller, $recv.MessageBody)
+//@ ensures[layout C16 C05 C06 C07 C09] err == nil ==> out == encMessage($recv.Version, $recv.SourceDomain, $recv.DestinationDomain, $recv.Nonce, $recv.Sender, $recv.Recipient, $recv.DestinationCaller, $recv.MessageBody)
 //@ ensures[nonnil] err == nil ==> out != nil
 
 //@ func (BurnMessage) Parse(bz) (out, err)
 //@ serves C16
 //@ ensures[len]    (err != nil) <==> (len(bz) != 132)
 //@ ensures[nil]    err != nil ==> out == nil
-//@ ensures[fields] err == nil ==> out.Version == u32be(bz, 0) && out.BurnToken == bz[4:36] && out.MintRecipient == bz[36:68] && out.MessageSender == bz[100:132]
-//@ ensures[amount] err == nil ==> !out.Amount.isnil && out.Amount.v == u256be(bz, 68)
+//@ ensures[fields C16 C03 C04 C05 C09] err == nil ==> out.Version == u32be(bz, 0) && out.BurnToken == bz[4:36] && out.MintRecipient == bz[36:68] && out.MessageSender == bz[100:132]
+//@ ensures[amount C16 C04 C05 C09] err == nil ==> !out.Amount.isnil && out.Amount.v == u256be(bz, 68)
 
 // FillBytes panics on a nil or out-of-range amount: callers must establish the range.
 //@ func (BurnMessage) Bytes() (out, err)
 //@ serves C16
 //@ requires[amount] !$recv.Amount.isnil && $recv.Amount.v >= 0
 //@ ensures[len]    (err == nil) <==> (len($recv.BurnToken) == 32 && len($recv.MintRecipient) == 32 && len($recv.MessageSender) == 32)
-//@ ensures[layout] err == nil ==> out == encBurn($recv.Version, $recv.BurnToken, $recv.MintRecipient, $recv.Amount, $recv.MessageSender)
+//@ ensures[layout C16 C05 C06 C09] err == nil ==> out == encBurn($recv.Version, $recv.BurnToken, $recv.MintRecipient, $recv.Amount, $recv.MessageSender)
 //@ ensures[nonnil] err == nil ==> out != nil
 
 // ---- round trips (C16): consequences of the four contracts above, proved over the layout functions
